@@ -1056,7 +1056,7 @@ impl Bitboard {
 // Helpers
 impl Bitboard {
     pub const fn ply_clock(&self) -> u16 {
-        (2 * (self.fullmove_clock - 1) + self.turn) as u16
+        (2 * self.fullmove_clock.saturating_sub(1) + self.turn) as u16
     }
 
     #[inline(always)]
